@@ -17,6 +17,7 @@ from ..ctx import Workload
 from ..gen import custom as gcustom
 from ..gen import values as V
 from ..gen.objects import ObjGen
+from ..gen import prime
 from ..oracles import jcs, validator
 from ..oracles import ts as tsor
 from ..spec import model as M
@@ -85,7 +86,8 @@ def expected_id(o):
         if p in o:
             if p == "hashes":
                 h = o[p]
-                chosen = next((a for a in PRIORITY if a in h), None) or next(iter(h))
+                # "... else first": first by algorithm name -- the statement promises independence from dictionary order
+                chosen = next((a for a in PRIORITY if a in h), None) or min(h)
                 data[p] = {chosen: h[chosen]}
             else:
                 data[p] = norm_value(by.get(p), o[p])
@@ -144,10 +146,22 @@ def wl_ids(ctx, rng, i):
         return
     exp, canon = expected_id(o)
     ids = {}
-    for route in ("parse", "parse-dict", "constructor"):
+    # history: the same instants were first seen by an observable whose contributing timestamp properties have other precisions
+    # (millisecond, second); how an instant was written for one object's identifier says nothing about the next object's
+    try:
+        stamp_cls = gcustom.ensure_registered()[("2.1", "stamp")]
+        tsvals = [v for v in prime.leaves(o, []) if prime.TS_RE.match(v)][:3]
+        for v in tsvals:
+            with warnings.catch_warnings():
+                warnings.simplefilter("ignore")
+                stamp_cls(stamped=v, stamped_s=v)
+            ctx.count("instants_seen_first_at_other_precision")
+    except Exception:
+        pass
+    for route in ("parse", "parse-dict", "constructor", "parse-id-null"):
         ctx.ev()
         try:
-            obj = construct(o, route, rng)
+            obj = construct(o, route, rng) if route != "parse-id-null" else construct(dict(o, id=None), "parse", rng)      # null = not given
         except Exception as e:
             ctx.skip("construction refused (%s) -- C03's subject" % type(e).__name__)
             return
@@ -159,7 +173,7 @@ def wl_ids(ctx, rng, i):
         try:
             import stix2
             cls = stix2.registry.class_for_type(t, "2.1", "observables")
-            kw = native.to_native("2.1", o, rng)
+            kw = native.to_native("2.1", o, rng, foreign_meta=True)     # incl. the library's own timestamp objects with foreign metadata
             with warnings.catch_warnings():
                 warnings.simplefilter("ignore")
                 ids["constructor-native"] = cls(allow_custom=True, **kw)["id"]
@@ -211,12 +225,31 @@ def wl_ids(ctx, rng, i):
                               {"input": o, "changed": [changed, "defanged"], "before": got, "after": g2})
         except Exception:
             ctx.skip("metamorphic variant refused")
-        # metamorphic: dictionary order of hashes (only when the choice is order independent by the statement)
-        if "hashes" in o and "hashes" in contrib and (len(o["hashes"]) == 1 or any(a in o["hashes"] for a in PRIORITY)):
+        # metamorphic: dictionary order of hashes, also when none of the preferred algorithms is present
+        if "hashes" in o and "hashes" in contrib:
             o3 = dict(o)
             items = list(o["hashes"].items())
             items.reverse()
             o3["hashes"] = dict(items)
+            if rng.random() < 0.5:
+                # only non-preferred algorithms, in two orders
+                np_ = [("SHA3-256", "a" * 64), ("SSDEEP", "3:abc:def"), ("SHA3-512", "b" * 128)]
+                rng.shuffle(np_)
+                o3["hashes"] = dict(np_)
+                o4 = dict(o3)
+                o4["hashes"] = dict(reversed(np_))
+                try:
+                    ga, gb = construct(o3, "parse", rng)["id"], construct(o4, "constructor", rng)["id"]
+                    ea = expected_id(o3)[0]
+                    ctx.ev()
+                    ctx.count("non_preferred_hash_orders")
+                    if ga != gb or ga != ea:
+                        ctx.violation("dictionary-order-changes-id" if ga != gb else "hash-choice-differs", "hashes without a preferred algorithm: ids %s / %s for the two orders, specification says %s" % (ga, gb, ea),
+                                      {"input": o3, "ids": [ga, gb], "expected": ea})
+                except Exception:
+                    pass
+                o3 = dict(o)
+                o3["hashes"] = dict(items)
             ctx.ev()
             try:
                 g3 = construct(o3, "parse", rng)["id"]
